@@ -47,7 +47,8 @@ class x12xml_simple(x12xml):
         cur_path = self._path_list(parent.get_path())
         #if seg_node.id == 'GS':
         #    import ipdb; ipdb.set_trace()
-        if self.last_path == cur_path and seg_node.is_first_seg_in_loop():
+        if self.last_path == cur_path and seg_node.is_first_seg_in_loop() \
+                and getattr(parent, 'type', None) != 'wrapper':
             # loop repeat
             self.writer.pop()
             (xname, attrib) = self._get_loop_info(cur_path[-1])
@@ -56,7 +57,8 @@ class x12xml_simple(x12xml):
             last_path = self.last_path
             match_idx = self._get_path_match_idx(last_path, cur_path)
             root_path = self._path_list(commonprefix(['/'.join(cur_path), '/'.join(last_path)]))
-            if seg_node.is_first_seg_in_loop() and root_path == cur_path:
+            if seg_node.is_first_seg_in_loop() and root_path == cur_path \
+                    and getattr(parent, 'type', None) != 'wrapper':
                 match_idx -= 1
             for i in range(len(last_path) - 1, match_idx - 1, -1):
                 self.writer.pop()
